@@ -37,6 +37,19 @@ def signatures(draw, dmin=0, dmax=4, dweights=None):
 def custom_basis(draw, d, start, odd_bias=True):
     """An admissible custom basis: generator order x per-blade spelling x order within each grade."""
     gens = [format(start + j, "x") for j in range(d)]
+    if draw(st.integers(0, 4)) == 0:
+        # a basis that LOOKS like the default one (generators ascending, every grade sorted lexicographically) but spells some
+        # blades with an odd permutation (e21, e132): code that detects custom bases by their order must not miss it
+        basis = ["e"] + ["e" + g for g in gens]
+        for g in range(2, d + 1):
+            blades = []
+            for comb in combinations(gens, g):
+                sp = list(comb)
+                if draw(st.booleans()):
+                    sp = list(draw(st.permutations(sp)))
+                blades.append("e" + "".join(sp))
+            basis.extend(sorted(blades))
+        return basis
     gens = list(draw(st.permutations(gens)))
     basis = ["e"]
     for g in range(1, d + 1):
